@@ -1,13 +1,24 @@
 package common
 
-import "errors"
+import (
+	"context"
+	"errors"
+	"fmt"
+)
 
 // C20 harness: AsyncMapReduce[int,int,[]int] under every interleaving and every failure pattern.
 
-var verifErrs = []error{errors.New("e0"), errors.New("e1"), errors.New("e2"), errors.New("e3"), errors.New("e4"), errors.New("e5")}
+var verifErrs = []error{errors.New("e0"), errors.New("e1"), errors.New("e2"), errors.New("e3"), errors.New("e4"), errors.New("e5"),
+	errors.New("e6"), errors.New("e7"), errors.New("e8"), errors.New("e9"), errors.New("e10"), errors.New("e11"), errors.New("e12")}
 
 // different items may fail for the same reason: distinct error values with one message
-var verifSameErrs = []error{errors.New("same"), errors.New("same"), errors.New("same"), errors.New("same"), errors.New("same"), errors.New("same")}
+var verifSameErrs = []error{errors.New("same"), errors.New("same"), errors.New("same"), errors.New("same"), errors.New("same"), errors.New("same"),
+	errors.New("same"), errors.New("same"), errors.New("same"), errors.New("same"), errors.New("same"), errors.New("same"), errors.New("same")}
+
+// errors that callers really pass through the helper: a cancelled context, bare and wrapped (what net/http
+// returns for a sub-request whose context ended), next to ordinary ones
+var verifCtxErrs = []error{context.Canceled, fmt.Errorf("Post u1: %w", context.Canceled), errors.New("e2"), fmt.Errorf("Post u3: %w", context.DeadlineExceeded), errors.New("e4"), errors.New("e5"),
+	errors.New("e6"), errors.New("e7"), errors.New("e8"), errors.New("e9"), errors.New("e10"), errors.New("e11"), errors.New("e12")}
 
 func VerifAMR() {
 	n := verifChoice("n", verifParam("nmax", 3)+1)
@@ -17,12 +28,29 @@ func VerifAMR() {
 	}
 	mapCalls := make([]int, n)
 	fail := make([]bool, n)
-	for i := range fail {
-		fail[i] = verifBool("fail" + verifItoa(i))
+	if verifParam("prefixfail", 0) == 1 {
+		// many items: the first (or the last) k of them fail
+		k := verifChoice("kfail", n+1)
+		last := verifChoice("failside", 2) == 1
+		for i := range fail {
+			fail[i] = (!last && i < k) || (last && i >= n-k)
+		}
+	} else {
+		for i := range fail {
+			fail[i] = verifBool("fail" + verifItoa(i))
+		}
 	}
 	errsOf := verifErrs
-	if n >= 2 && verifChoice("samemessage", 2) == 1 {
-		errsOf = verifSameErrs
+	if n >= 1 {
+		switch verifChoice("errkind", 3) {
+		case 1:
+			if n < 2 {
+				verifAssume(false)
+			}
+			errsOf = verifSameErrs
+		case 2:
+			errsOf = verifCtxErrs
+		}
 	}
 	inReduce := false
 	reduced := make([]int, n)
